@@ -45,6 +45,7 @@ def run_case(spec):
     completed_runs = 0
     bps = {}        # relocated addr -> num
     wps = []
+    local_wps = set()   # numbers of watchpoints on locals (they own an end-of-scope companion breakpoint)
     tick_addr = prep.b.sym_addr('TICK')
     ex = prep.stmt_addrs(executed_only=True)
     hot = [a for a in ex if len(prep.trace.by_pc()[a]) > 2]
@@ -95,6 +96,13 @@ def run_case(spec):
                 r = S.cmd(op, timeout=180)
                 if not was_exited and S.exited:
                     completed_runs += 1
+                    local_wps.clear()
+                for e in r.get('ev', []):
+                    if e.get('ev') == 'watchpoint' and e.get('end_of_scope'):
+                        local_wps.discard(e.get('num'))
+                        if e.get('num') in wps:
+                            wps.remove(e.get('num'))
+                S.tolerate_extra_int3 = bool(local_wps)
                 if 'ok' not in r:
                     v.count('failing_commands')
             elif op == 'break':
@@ -121,6 +129,20 @@ def run_case(spec):
                     else:
                         S.cmd('remove_addr', addr=a)
                     bps.pop(a, None)
+            elif op == 'watch' and not S.exited and rng.random() < 0.45:
+                # a watchpoint on a local / argument of the current function: it owns an internal end-of-scope breakpoint,
+                # which is a documented internal patch only while such a watchpoint exists
+                S.tolerate_extra_int3 = True
+                r = S.cmd('watch_expr', expr=rng.choice(['x', 'x', 'a']), cond=rng.choice(['w', 'rw']))
+                if 'ok' in r:
+                    local_wps.add(r['ok']['num'])
+                    wps.append(r['ok']['num'])
+                    v.count('local_watchpoints')
+                else:
+                    v.count('failing_commands')
+                S.tolerate_extra_int3 = bool(local_wps)
+                if not local_wps:
+                    S.cmd('bps')        # a refused request must leave no patch: strict text check right now
             elif op == 'watch':
                 if tick_addr and not S.exited:
                     a = tick_addr + rng.choice([0, 0, 8, 16, 24, 32])   # TICK and its neighbours
@@ -131,9 +153,14 @@ def run_case(spec):
                         v.count('failing_commands')
             elif op == 'unwatch':
                 if wps:
-                    S.cmd('unwatch_num', num=wps.pop(rng.randrange(len(wps))))
+                    num = wps.pop(rng.randrange(len(wps)))
+                    local_wps.discard(num)
+                    S.tolerate_extra_int3 = bool(local_wps)
+                    S.cmd('unwatch_num', num=num)
             elif op == 'restart':
+                local_wps.clear()
                 r = S.cmd('restart', timeout=180)
+                S.tolerate_extra_int3 = False
                 wps = []
                 if 'ok' in r:
                     v.count('restarts')
